@@ -5,8 +5,46 @@ import Nv.Proofs.C20Time
 /-!
 C20 — property theorems for the `tex` scalar wrappers (model `Nv.Model.C20`, reference `Nv.Spec.C20`).
 Every statement quantifies over all byte strings / all values of the type; the configuration `c`
-ranges over `Proved` (quotes checked before slicing, elements range-checked). For today's
-configuration (`Cfg.today`) the witnesses at the end show the property is false.
+ranges over `Proved` (quotes checked before slicing, elements range-checked, strict SQL scanners). For the
+original configuration (`Cfg.today`) and the legacy scanners the witnesses at the end show the property is false.
+
+INDEX — clause of properties.jsonl#C20.statement → theorem(s)
+
+"For each JSON- or SQL-adapted scalar type … decoding the encoder's output gives back the original value":
+  * string-encoded int64 / uint64 ........ `i64_roundtrip`, `u64_roundtrip` (all of int64 / uint64, extremes included)
+  * slash-separated byte list ............ `jsbyte_roundtrip` (every list, `[]` and one-element lists included)
+  * unix-second time (JsUnixTime) ........ `unixtime_roundtrip` (on seconds), `unixtime_roundtrip_time` /
+                                           `unixtime_roundtrip_whole_second` (on instants: exact iff nsec = 0 — the stated domain)
+  * unix-nanosecond time (JsNanoTime) .... `nanotime_roundtrip` (on int64 ns), `nanotime_roundtrip_iff` (on instants: exact
+                                           IFF the instant fits int64 ns; outside: `witness_nanotime_zero_time`,
+                                           `witness_nanotime_year_2300` — a KNOWN FINDING, not repairable in this format)
+  * second stamps (UnixStamp) ............ `stamp_roundtrip`; SQL form `sql_stamp_roundtrip` (also SQLTime2Unix)
+  * SQL time adapters .................... `sql_unixnano_roundtrip_iff` (UnixNano2Time, same domain as JsNanoTime;
+                                           `witness_sql_unixnano_zero_time`), `sql_unix_roundtrip` (Unix2Time, to the second)
+  * durations ............................ `dur_roundtrip`, `duration_string_parses` (every int64 duration: zero, negative, Min/MaxInt64;
+                                           the TOML form is the same `ParseDuration(String())` law)
+  * base64 bytes ......................... `base64_roundtrip`
+  * hex / base-32 integer strings ........ `hex_roundtrip_u16`, `hex_roundtrip_u32`, `hex_roundtrip_i16`, `hex_roundtrip_i32`
+"Decoding any other input either fails or produces exactly the value that the text denotes: it never silently yields a
+ different number (dropped digits, wrapped bytes)":
+  * the strconv layer .................... `parse_int_exact`, `parse_int_complete`, `parse_int_never_wraps`, `parse_uint_exact`,
+                                           `parse_uint_complete`, `parse_uint_never_wraps`, `hex_parse_exact`, `hex_parse_exact_u`
+  * every JSON wrapper, EVERY byte string  `unmarshal_exact_or_error`, `i64_exact_or_error`, `u64_exact_or_error`,
+                                           `unixtime_exact_or_error`, `nanotime_exact_or_error`, `stamp_exact_or_error`,
+                                           `unmarshal_complete_quoted`, `unmarshal_range_quoted`
+  * byte lists, "wrapped bytes" .......... `jsbyte_exact_or_error`, `jsbyte_no_wrap`
+  * Duration ............................. `dur_exact_or_error` (only the quoted / whole text reaches the parser; exactness of the
+                                           parser itself is relative to the hand-written model of `time.ParseDuration`)
+  * SQL scanners ......................... `scan_exact_or_error`, `scan_refuses_unsupported`, `stamp_scan_exact_or_error`
+  * no panic on any JSON token ........... `panic_only_lone_quote`, `proved_panics_only_on_lone_quote`
+  * false of the unrepaired code ......... `witness_*`, `not_exact_or_error_today`, `not_no_wrap_today`, `not_scan_exact_legacy`
+Only monitor-checked / correspondence-checked (no theorem):
+  * that encoding/json and jsoniter hand the raw token to UnmarshalJSON (three delivery paths compared on every token);
+  * the modelled library functions themselves (strconv, time.ParseDuration/String incl. its float64 fraction step,
+    time.Unix/Unix/UnixNano, encoding/base64, strings.Split) — validated against the real ones on every run;
+  * base64 beyond the round trip: the non-strict decoder accepts non-canonical tails and skips CR/LF (as coded);
+  * `Duration.Duration()`, `UnmarshalTOML`, `JsByte.ToString/FromString` wiring (pinned facts + monitors);
+  * that an encoder result the caller still holds is not changed by later encodes (harness rule, not expressible in the pure model).
 -/
 namespace Nv.C20
 
